@@ -95,10 +95,11 @@ runs:
   without guard (the text written depends on the document only, not on the outputs),
   `C10_run_passing_untouched_partial` the statement under the decidable guard `Settled` (the
   document is its own re-rendering; `C10_run_idempotent_partial` says that the documents `update`
-  writes are of that kind).  The re-rendering can even CHANGE THE COMMAND of a passing test:
-  `C10_run_passing_corrupts_command_witness` (finding `C10:expectation-read-as-continuation`,
-  confirmed on the binary: `$ x` / `[1]` / `> a` passes and is rewritten to `$ x` / `> a` / `[1]`,
-  whose command is `x⏎a`);
+  writes are of that kind).  Repaired by fix cfef990 (was finding `C10:expectation-read-as-continuation`,
+  witness `C10_run_passing_corrupts_command_witness`, now deleted): the re-rendering of the passing test
+  `$ x` / `[1]` / `> a` put `> a` directly behind the command, whose continuation it then was (`x⏎a`); now the
+  exit code line stays in front of it and the document is not written at all
+  (`C10_run_passing_cont_kept`; the general statement: `C10_exit_code_first`, `C10_written_block_command`);
 * `C10_run_outside_preserved`, `C10_run_outside_preserved_partial`, `C10_run_same_tokens` – lines
   outside scrut blocks, number and order of blocks, language / configuration / comment lines
   (`Rewritten`, `BlockOut`, `Reread` as above);
@@ -107,15 +108,21 @@ runs:
       theorem C10_run_same_commands : updateDocument … = .updated text rs → parse content = .ok p → parse text = .ok p' →
           p'.tests.map (·.shellExpression) = p.tests.map (·.shellExpression)
 
-  is **false**: `C10_run_same_commands_fails_on_witness` (finding
-  `C10:trailing-empty-continuation-dropped`, confirmed on the binary: `$ x` / `> ` is the command
-  `x⏎` and is written back as `$ x`) and the witness of the previous item.
-  `C10_run_same_commands_partial` proves it under the decidable guards `CmdClosed` (no command ends
-  in an empty continuation line), `NoContLike` (no expectation line starts with `> `), `NoStrayCR`,
-  `FrontClosed`, for any `isOther` with `AsciiContract` (C11), IF the written document parses;
+  is still **false**, for one reason only: `C10_run_same_commands_fails_on_witness` (a command line ending in
+  a stray carriage return, `$ x␍␍⏎`, is the command `x␍` and is written `$ x␍⏎`, which `str::lines()` reads as
+  `x`: the root cause of the open finding `C10:stray-carriage-return-dropped`).  The two witnesses this item
+  had before are repaired and deleted: `$ x` / `> ` (the command `x⏎`) was written back as `$ x` (finding
+  `C10:trailing-empty-continuation-dropped`, fix 961e96b, regression `C10_run_trailing_continuation_kept`) and
+  the one of the previous item.
+  `C10_run_same_commands_partial` proves the statement under the decidable guards `NoStrayCR`,
+  `FrontClosed` alone (the guards `CmdClosed`, `NoContLike` it had are dropped: EVERY command, also one ending
+  in an empty continuation line, and EVERY expectation line, also `> x`), for any `isOther` with
+  `AsciiContract` (C11), IF the written document parses.  Underneath: `C10_expression_roundtrip` (the lines
+  written for ANY command text are read back by the line parser as that command) and
+  `C10_written_block_command` (whatever is written behind them, no line of it is taken for a continuation);
 * **idempotence** – `C10_run_idempotent_same_texts_partial`: the second update writes nothing if
   it generates the same texts; `C10_run_idempotent_partial`: it does so – hence
-  `update (update doc) = unchanged` – under the guards above, exit codes 0..255, `QuantFree` (a test
+  `update (update doc) = unchanged` – under the guards `NoStrayCR`, `FrontClosed`, exit codes 0..255, `QuantFree` (a test
   with `MalformedOutput` has no quantified expectation: the open finding
   `C10:not-idempotent-retained-quantified-expectations`) and ONE hypothesis that is not discharged,
   `SameConfigs`: the written document is read (it parses, its lines compile) with the same test
@@ -348,15 +355,16 @@ theorem C10_run_passing_untouched_fails_on_witness :
     ∀ isOther, updateDocument isOther docNoLf [runA] = .updated (docNoLf ++ ['\n']) [.ok] :=
   ⟨allPass_noLf, noLf_written⟩
 
-/-- DEVIATION (finding `C10:expectation-read-as-continuation`): a passing test `$ x` / `[1]` / `> a`
-is rewritten to `$ x` / `> a` / `[1]`: the document is LF-terminated, holds no carriage return and
-no front-matter, and the written document parses to ANOTHER command (`x⏎a`). -/
-theorem C10_run_passing_corrupts_command_witness :
+/-- Repaired by fix cfef990 (was finding `C10:expectation-read-as-continuation`, witness
+`C10_run_passing_corrupts_command_witness`: the passing test `$ x` / `[1]` / `> a` was rewritten to `$ x` /
+`> a` / `[1]`, whose command is `x⏎a`): the text of a passing test keeps the exit code line -- also `[0]` -- in
+front of an expectation line that starts with `> `, so these documents are not written at all. -/
+theorem C10_run_passing_cont_kept :
     AllPass docCont [runCont] ∧
-    (∀ isOther, updateDocument isOther docCont [runCont] = .updated docContOut [.ok]) ∧
-    (parseMarkdown TestRun.parseEnv docCont).toOption.map (fun p => p.tests.map (·.command)) = some [[['x']]] ∧
-    (parseMarkdown TestRun.parseEnv docContOut).toOption.map (fun p => p.tests.map (·.command)) = some [[['x'], ['a']]] :=
-  ⟨allPass_cont, cont_written, cont_commands.1, cont_commands.2⟩
+    (∀ isOther, updateDocument isOther docCont [runCont] = .unchanged [.ok]) ∧
+    (∀ isOther, updateDocument isOther docCont0 [runCont0] = .unchanged [.ok]) ∧
+    (parseMarkdown TestRun.parseEnv docCont).toOption.map (fun p => p.tests.map (·.command)) = some [[['x']]] :=
+  ⟨allPass_cont, cont_kept, cont0_kept, by decide⟩
 
 /-- What is true of every passing document: if it is written at all, the text written is the
 re-rendering of the document from its own lines (`passText`: command, expectation lines as written,
@@ -428,41 +436,134 @@ FALSE as first stated (the full-strength statement is kept here):
         p'.tests.map (·.shellExpression) = p.tests.map (·.shellExpression)
 -/
 
-/-- DEVIATION (finding `C10:trailing-empty-continuation-dropped`): `$ x` / `> ` (the command `x⏎`)
-is written back as `$ x` (the command `x`). -/
+/-- DEVIATION, the one left (root cause of the open finding `C10:stray-carriage-return-dropped`): the command
+line `$ x␍␍⏎` is the command `x␍` (`str::lines()` strips one carriage return); the passing test is written
+back as `$ x␍⏎`, which reads as the command `x`.  The document violates the guard `NoStrayCR`. -/
 theorem C10_run_same_commands_fails_on_witness :
+    (∀ isOther, updateDocument isOther docCrCmd [runA] = .updated docCrCmdOut [.ok]) ∧
+    (parseMarkdown TestRun.parseEnv docCrCmd).toOption.map (fun p => p.tests.map (·.shellExpression)) = some [['x', '\r']] ∧
+    (parseMarkdown TestRun.parseEnv docCrCmdOut).toOption.map (fun p => p.tests.map (·.shellExpression)) = some [['x']] ∧
+    ¬ NoStrayCR docCrCmd :=
+  ⟨crCmd_written, crCmd_commands.1, crCmd_commands.2, crCmd_strayCR⟩
+
+/-- Repaired by fix 961e96b (was finding `C10:trailing-empty-continuation-dropped`, the former witness of
+`C10_run_same_commands_fails_on_witness`: `$ x` / `> ` was written back as `$ x`): the command `x⏎` keeps its
+empty continuation line. -/
+theorem C10_run_trailing_continuation_kept :
     updateDocument ctrl docTrail [runA] = .updated docTrailOut [.malformed [.unmatched 0, .unexpected [0]]] ∧
     (parseMarkdown TestRun.parseEnv docTrail).toOption.map (fun p => p.tests.map (·.shellExpression)) = some [['x', '\n']] ∧
-    (parseMarkdown TestRun.parseEnv docTrailOut).toOption.map (fun p => p.tests.map (·.shellExpression)) = some [['x']] :=
+    (parseMarkdown TestRun.parseEnv docTrailOut).toOption.map (fun p => p.tests.map (·.shellExpression)) = some [['x', '\n']] :=
   ⟨trail_written, trail_commands.1, trail_commands.2⟩
 
 /-- **Same commands, at the level of the parser**: if the written document parses, it parses to
 the same command lines (hence the same shell expressions), test by test – for documents without
-stray carriage return and with closed front-matter, no command ending in an empty continuation
-line, no expectation line starting with `> `. -/
+stray carriage return and with closed front-matter; every command (also the empty continuation line at its
+end), every expectation line (also `> x`).  Missing for the full statement: the guard `NoStrayCR` cannot be
+dropped (`C10_run_same_commands_fails_on_witness`); `FrontClosed` is needed by the proof only (behind an
+unterminated front-matter there is no test). -/
 theorem C10_run_same_commands_partial (isOther : Char → Bool) (hC : AsciiContract isOther) (content : List Char)
     (runs : List TestRun.Ran) (text : List Char) (results : List Gen.UpdResult)
     (h : updateDocument isOther content runs = .updated text results)
     (hcr : NoStrayCR content) (hf : FrontClosed content) (p p' : Parsed)
-    (hp : parseMarkdown TestRun.parseEnv content = .ok p) (hp' : parseMarkdown TestRun.parseEnv text = .ok p')
-    (hcmd : ∀ t ∈ p.tests, CmdClosed t) (hnc : ∀ t ∈ p.tests, NoContLike t) :
+    (hp : parseMarkdown TestRun.parseEnv content = .ok p) (hp' : parseMarkdown TestRun.parseEnv text = .ok p') :
     p'.tests.map (·.command) = p.tests.map (·.command) :=
-  run_same_commands_parsed hC h hcr hf hp hp' hcmd hnc
+  run_same_commands_parsed hC h hcr hf hp hp'
 
 /-- the guards hold for an ordinary document (title, blank line, one block, text behind it), whose
 written form parses -/
 example : updateDocument ctrl docOrd [runNew] = .updated docOrdOut [.malformed [.unmatched 0, .unexpected [0]]] ∧
     AsciiContract ctrl ∧ NoStrayCR docOrd ∧ FrontClosed docOrd ∧
     parseMarkdown TestRun.parseEnv docOrd = .ok parsedOrd ∧
-    (∀ t ∈ parsedOrd.tests, CmdClosed t) ∧ (∀ t ∈ parsedOrd.tests, NoContLike t) ∧
     (parseMarkdown TestRun.parseEnv docOrdOut).toOption.isSome = true :=
-  ⟨ord_written, ctrl_contract, ord_noStrayCR, ord_frontClosed, parse_ord, ord_cmdClosed, ord_noContLike, by decide⟩
+  ⟨ord_written, ctrl_contract, ord_noStrayCR, ord_frontClosed, parse_ord, by decide⟩
+
+/-- … and for the document whose command ends in an empty continuation line (the former witness) -/
+example : NoStrayCR docTrail ∧ FrontClosed docTrail ∧
+    (parseMarkdown TestRun.parseEnv docTrail).toOption.isSome = true ∧
+    (parseMarkdown TestRun.parseEnv docTrailOut).toOption.isSome = true := by decide
+
+/-! ### the two repairs of `generate_testcase`, for all inputs -/
+
+/-- **The shell expression round trip** (fix 961e96b): for EVERY command text `cmd` -- the empty one, one
+ending in line feeds, any characters -- `generate_testcase_expression` does not panic and returns the text of
+the lines `exprLines cmd` (`$ ` + the first piece of `split('\n')`, `> ` + every further piece; none holds a
+line feed); the line parser between two tests (`Clean s`), fed these lines, takes them all as command lines and
+holds the command whose `join("\n")` -- the `shell_expression` -- is exactly `cmd`, no expectation and no exit
+code.  (Through `str::lines()` of a whole document a piece ending in a carriage return loses it: the guard
+`NoStrayCR` / `hcr` of the document-level theorems.) -/
+theorem C10_expression_roundtrip (expOk : Line → Bool) (s : LineParser.State Cfg) (hc : Markdown.Clean s)
+    (cmd : List Char) (k : Nat) :
+    Gen.expression cmd = some (unlines (exprLines cmd)) ∧ (∀ l ∈ exprLines cmd, '\n' ∉ l) ∧
+    ∃ s', addAll expOk s (number k (exprLines cmd)) = .ok s' ∧
+      s'.command = Gen.splitNl cmd [] ∧ LineParser.joinNl s'.command = cmd ∧
+      s'.expectations = [] ∧ s'.exitCode = none ∧ s'.inCommand = true ∧ s'.testcases = s.testcases :=
+  ⟨expression_exprLines cmd, exprLines_no_nl cmd, expression_roundtrip expOk s hc cmd k⟩
+
+/-- **The exit code line goes first where it has to** (fix cfef990), `generate_testcase` for a test with
+expectations, any command, any expectations, any diff, any exit code:
+* `Ok`: if the first expectation text starts with `> ` (`contHead`), the line directly behind the command
+  lines `ex` is `[code]` (also `[0]`), then the texts; otherwise the text is what the old placement gave:
+  the texts, then `[code]` iff `code ≠ 0`;
+* `MalformedOutput(d)`: the same with `contFirst`: the first entry written is a RETAINED text that starts
+  with `> ` (a generated first line never does: C09's `C09_line_roundtrip`). -/
+theorem C10_exit_code_first (m : Esc.Mode) (isOther : Char → Bool) (cmd : List Char) (origs : List (List Char))
+    (lines : List (List UInt8)) (d : List Diff.DL) (code : Int) :
+    ∃ ex, Gen.expression cmd = some ex ∧
+    Gen.generateTestcaseUpd m isOther cmd origs .ok lines code =
+      some (if GenLemmas.contHead origs then ex ++ Gen.exitCodeLine code ++ origs.flatMap Gen.assureNewlineC
+            else ex ++ origs.flatMap Gen.assureNewlineC ++ Gen.exitCodeOpt code) ∧
+    Gen.generateTestcaseUpd m isOther cmd origs (.malformed d) lines code =
+      (GenLemmas.slotsText m isOther origs lines (GenLemmas.slots d)).map (fun b =>
+        if GenLemmas.contFirst origs (GenLemmas.slots d) then ex ++ Gen.exitCodeLine code ++ b
+        else ex ++ b ++ Gen.exitCodeOpt code) := by
+  obtain ⟨ex, hex⟩ := GenLemmas.expression_isSome cmd
+  exact ⟨ex, hex, GenLemmas.generateTestcaseUpd_ok_text m isOther cmd ex origs lines code hex,
+    GenLemmas.generateTestcaseUpd_malformed_text m isOther cmd ex origs lines d code hex⟩
+
+/-- … and in the integrated model the placement is that of a passing test whatever the result: the text of an
+outcome is the command lines, then `afterLines newOrigs code` = `[code]` in front iff the first written text
+starts with `> `, for the written expectation texts `newOrigs` (retained ones and generated ones). -/
+theorem C10_run_outcome_lines (isOther : Char → Bool) (hC : AsciiContract isOther) (u : UTest) (r : TestRun.Ran)
+    (res : Gen.UpdResult) (g : List Char) (h : outcomeText isOther u r = .ok (res, some g))
+    (horigs : ∀ o ∈ u.origs, '\n' ∉ o) :
+    ∃ newOrigs, g = unlines (exprLines u.cmd ++ afterLines newOrigs r.code) ∧
+      ∀ o ∈ newOrigs, o ∈ u.origs ∨ ∃ l, Newline.IsLine l ∧ Gen.expectationLine .unicode isOther l = some o :=
+  outcome_lines hC h horigs
+
+/-- **The written block keeps its command** (the statement the deleted witness
+`C10_run_passing_corrupts_command_witness` refuted): whatever the expectation texts `newOrigs` written behind
+the command lines are -- also `> x` -- and whatever the exit code, if the line parser (between two tests)
+accepts the lines `exprLines cmd ++ afterLines newOrigs code`, the command it reads is `cmd`, and the
+lines behind the command lines are read as expectations and exit code: none is taken for a continuation. -/
+theorem C10_written_block_command (expOk : Line → Bool) (s s' : LineParser.State Cfg) (hc : Markdown.Clean s)
+    (cmd : List Char) (newOrigs : List (List Char)) (code : Int) (k : Nat)
+    (h : addAll expOk s (number k (exprLines cmd ++ afterLines newOrigs code)) = .ok s') :
+    s'.command = Gen.splitNl cmd [] ∧ LineParser.joinNl s'.command = cmd ∧
+      s'.expectations = expLines (afterLines newOrigs code) ∧
+      s'.exitCode = (exitCodes (afterLines newOrigs code)).head? :=
+  written_block_command expOk s s' hc cmd newOrigs code k h
+
+/-- non-vacuity: the state of a fresh line parser is `Clean`; the lines of the empty command, of `x⏎`; the lines
+behind the command for the texts `> a` (exit code 0 and 1), `a` (exit code 0 and 1) and none; the line parser
+accepts `$ x` / `[0]` / `> a` and reads the command `x` -/
+example : Markdown.Clean (LineParser.State.new false : LineParser.State Cfg) := ⟨rfl, rfl, rfl, rfl, rfl⟩
+example : exprLines [] = [['$', ' ']] ∧ exprLines ['x', '\n'] = [['$', ' ', 'x'], ['>', ' ']] ∧
+    afterLines [['>', ' ', 'a']] 0 = [['[', '0', ']'], ['>', ' ', 'a']] ∧
+    afterLines [['>', ' ', 'a']] 1 = [['[', '1', ']'], ['>', ' ', 'a']] ∧
+    afterLines [['a']] 0 = [['a']] ∧ afterLines [['a']] 1 = [['a'], ['[', '1', ']']] ∧ afterLines [] 0 = [] := by decide
+/-- the hypotheses of `C10_run_outcome_lines` hold for the test `$ x` / `[1]` / `> a` (the expectation texts of a
+test read from a document are lines of the document) on its passing run; its text -/
+example : outcomeText ctrl utCont runCont = .ok (.ok, some ("$ x\n[1]\n> a\n".toList)) ∧
+    (∀ o ∈ utCont.origs, '\n' ∉ o) := by
+  refine ⟨outcomeText_passes ctrl utCont runCont ⟨([62, 32, 97, 10], []), by decide, judge_cont⟩ _ (by rfl), by decide⟩
+example : ∃ s', addAll (fun _ => true) (LineParser.State.new false) (number 0 (exprLines ['x'] ++ afterLines [['>', ' ', 'a']] 0)) = .ok s' ∧
+    s'.command = [['x']] ∧ s'.expectations = [['>', ' ', 'a']] ∧ s'.exitCode = some 0 := ⟨_, rfl, rfl, rfl, rfl⟩
 
 /-! ### U4: idempotence of the composition
 
 The full-strength statement (no guard) is false where the open findings
 `C10:not-idempotent-stray-carriage-return`, `C10:not-idempotent-retained-quantified-expectations` and
-the witnesses above (`C10:expectation-read-as-continuation`) say so. -/
+the stray-carriage-return witness above say so. -/
 
 /-- The second update writes nothing, provided it generates the same texts as the first
 (`C10_idempotent` through the composition; the count of tests is proved to be the same). -/
@@ -479,22 +580,22 @@ example : docGens ctrl docOrdOut [runNew] = docGens ctrl docOrd [runNew] := ord_
 
 /-- **Idempotence**: updating the updated document with the same runs writes nothing – under the
 decidable guards named in the header and the one undischarged hypothesis `SameConfigs` (the written
-document is read with the same test configurations). -/
+document is read with the same test configurations).  (The guards `CmdClosed` / `NoContLike` it had before
+fixes 961e96b / cfef990 are dropped.) -/
 theorem C10_run_idempotent_partial (isOther : Char → Bool) (hC : AsciiContract isOther) (content : List Char)
     (runs : List TestRun.Ran) (text : List Char) (results : List Gen.UpdResult)
     (h : updateDocument isOther content runs = .updated text results)
     (hcr : NoStrayCR content) (hf : FrontClosed content) (p : Parsed)
     (hp : parseMarkdown TestRun.parseEnv content = .ok p)
-    (hcmd : ∀ t ∈ p.tests, CmdClosed t) (hnc : ∀ t ∈ p.tests, NoContLike t)
     (hcodes : ∀ r ∈ runs, 0 ≤ r.code ∧ r.code ≤ 255)
     (hq : QuantFree content results) (hsc : SameConfigs content text) :
     ∃ rs, updateDocument isOther text runs = .unchanged rs :=
-  run_idempotent_readback hC h hcr hf hp hcmd hnc hcodes hq hsc
+  run_idempotent_readback hC h hcr hf hp hcodes hq hsc
 
 /-- every hypothesis holds for the ordinary document, so its second update writes nothing -/
 example : ∃ rs, updateDocument ctrl docOrdOut [runNew] = .unchanged rs :=
   C10_run_idempotent_partial ctrl ctrl_contract docOrd [runNew] docOrdOut _ ord_written ord_noStrayCR ord_frontClosed
-    parsedOrd parse_ord ord_cmdClosed ord_noContLike ord_codes ord_quantFree ord_sameConfigs
+    parsedOrd parse_ord ord_codes ord_quantFree ord_sameConfigs
 
 end Integrated
 
